@@ -158,7 +158,7 @@ def render(scn, probe=None):
       v = q[pat["H"]]
       o = feats["hlim"]
       rng = {"lo": (v + 0.15, v + 1.0), "hi": (v - 1.0, v - 0.15), "margin": (v - 0.05, v + 1.0), "out": (v - 0.5, v + 0.5), "narrow": (v - 0.03, v + 0.04)}[o]
-      extra = ' solimplimit="0.8 0.97 0.01 0.3 3"' if o == "hi" else ""
+      extra = ' solimplimit="0.8 0.97 0.4 0.3 3"' if o == "hi" else ""
       add(pat["H"], f'limited="true" range="{rng[0]:.6f} {rng[1]:.6f}" margin="0.1"{extra}')
     if "slim" in feats:
       v = q[pat["S"]]
@@ -194,7 +194,7 @@ def render(scn, probe=None):
     if probe is not None:
       L = probe["ten_length"][tn]
       rng = {"lo": (L + 0.15, L + 1.0), "hi": (L - 1.0, L - 0.15), "margin": (L - 0.05, L + 1.0), "sp_hi": (0.0, max(L - 0.1, 0.01)), "narrow": (L - 0.03, L + 0.04)}[o]
-      extra = ' solimplimit="0.85 0.99 0.02 0.4 2"' if o == "hi" else ""
+      extra = ' solimplimit="0.85 0.99 0.5 0.4 2"' if o == "hi" else ""
       tendon_attr[tn] += f' limited="true" range="{rng[0]:.6f} {rng[1]:.6f}" margin="0.1"{extra}'
   tendons = ""
   if need_tf:
@@ -209,7 +209,7 @@ def render(scn, probe=None):
     o = feats["connect"]
     act = ' active="false"' if o == "off0" else ""
     if o == "site":
-      eqs += '<connect name="eqc" site1="s1" site2="s3" solref="0.03 0.8"/>'
+      eqs += '<connect name="eqc" site1="s1" site2="s3" solref="0.003 0.8" solimp="0.7 0.95 3.0 0.6 1.5"/>'
     elif o == "world":
       eqs += '<connect name="eqc" body1="b2" anchor="0.1 -0.05 0.12" solref="-700 -30"/>'
     else:
@@ -220,7 +220,7 @@ def render(scn, probe=None):
     if o == "site":
       eqs += '<weld name="eqw" site1="s2" site2="s3" torquescale="0.6"/>'
     elif o == "world":
-      eqs += '<weld name="eqw" body1="b3" anchor="0.05 0.02 -0.03" solimp="0.85 0.98 0.005 0.4 2.5"/>'
+      eqs += '<weld name="eqw" body1="b3" anchor="0.05 0.02 -0.03" solimp="0.85 0.98 2.0 0.4 2.5"/>'
     elif o == "relpose":
       eqs += '<weld name="eqw" body1="b1" body2="b3" relpose="0.1 -0.2 0.15 0.8 0.36 -0.48 0" anchor="0.02 0.03 0.04" torquescale="1.4"/>'
     else:
@@ -238,7 +238,7 @@ def render(scn, probe=None):
     if o == "two":
       eqs += '<tendon name="eqt" tendon1="tf" tendon2="ts" polycoef="0.02 0.6 0.3 -0.2 0.1"/>'
     else:
-      eqs += f'<tendon name="eqt" tendon1="tf" polycoef="0.07 0 0 0 0" solimp="0.8 0.96 0.02 0.5 2"{act}/>'
+      eqs += f'<tendon name="eqt" tendon1="tf" polycoef="0.07 0 0 0 0" solimp="0.8 0.96 1.0 0.5 2"{act}/>'
 
   # contacts (need probe)
   world_extra = ""
